@@ -8,6 +8,8 @@
 //   bit 0 (1): stall conditions are arbitrary (default: they never rise while the stalled stream offers a beat that is not taken)
 //   bit 1 (2): allow regDownstreamBlocking to feed a stage whose ready waits for valid (... -> reduceWidth): such chains can
 //              get stuck for good; outside the side condition of Props.compose_live, counted as observation by the driver
+//   bit 3 (8): allow the shapes of Packet.h's widthExtend/widthReduce that are known to be wrong (sop flag of widthExtend for ratio > 1,
+//              byte-enable offset of both for enable groups wider than one bit or ratios that are not a power of two)
 //   bit 2 (4): mostly chains in which reduceWidth is followed directly by delay(n >= 1) (finding F5, fixed in /repo 553e604)
 #include <gatery/scl_pch.h>
 #include <gatery/frontend.h>
@@ -400,6 +402,24 @@ static bool blockingFeedsWeak(const std::vector<StageSpec> &st)
 	}
 	return false;
 }
+// regDownstreamBlocking -> … widthExtend … -> a stage whose ready waits for valid: widthExtend derives ready(source) from
+// eop(source) of whatever the (never loaded) blocking register holds at power-on, which the simulator treats as undefined
+// for good — nothing to compare; such chains are not generated
+static bool blockingFeedsWeakThroughPext(const std::vector<StageSpec> &st)
+{
+	for (size_t i = 0; i < st.size(); i++) {
+		if (st[i].kind != DSB) continue;
+		bool pext = false;
+		for (size_t j = i + 1; j < st.size(); j++) {
+			Kind k = st[j].kind;
+			if ((k == RED || k == PRED) && st[j].a > 1) { if (pext) return true; break; }
+			if (k == PEXT) pext = true;
+			bool passes = k == STALL || k == EXT || k == RED || k == PEXT || k == PRED || (k == DLY && st[j].a == 0) || k == DSB;
+			if (!passes) break;
+		}
+	}
+	return false;
+}
 static bool reduceThenDelay(const std::vector<StageSpec> &st)
 {
 	for (size_t i = 0; i + 1 < st.size(); i++)
@@ -419,7 +439,7 @@ static unsigned bitLen(uint64_t v) { return log2c(v + 1); }                     
 static unsigned bitCount(uint64_t n) { return n <= 1 ? 0 : log2c(n); }                          // BitWidth::count
 
 // fills in the widths along the chain; false if some stage cannot be built / is outside what the check covers
-static bool finishWidths(CaseSpec &cs)
+static bool finishWidths(CaseSpec &cs, bool allowKnownDefects)
 {
 	const unsigned k = cs.skind, ek = kEmpty(k);
 	unsigned w = cs.w0, bw = cs.bw0, ew = cs.ew0;
@@ -440,13 +460,25 @@ static bool finishWidths(CaseSpec &cs)
 		case PEXT: {
 			if (!kHasEop(k) || sp.a == 0 || w * sp.a > 60 || bw * sp.a > 60) return false;
 			if (ek == 1 && w % 8) return false;
+			if (sp.a == 1 && (bw || ek)) return false; // ratio 1 does not elaborate with ByteEnable/Empty/EmptyBits (zero-width counter); matchWidth never asks for it
+			if (!allowKnownDefects) {
+				// Packet.h:566-569: the sop flag of widthExtend is set and cleared in every cycle, valid/transferred or not
+				if (kHasSop(k) && sp.a > 1) return false;
+				// Packet.h:552-559: the byte-enable slice offset `beat.value() * width` is truncated to the counter's width
+				if (bw && sp.a > 1 && (bw != 1 || (sp.a & (sp.a - 1)))) return false;
+			}
 			sp.wout = w * sp.a; sp.bwout = bw * sp.a;
 			if (ek) { uint64_t unit = ek == 1 ? w / 8 : w; sp.ewout = bitLen(unit * (sp.a - 1) + ((1ull << ew) - 1)); if (sp.ewout > 20) return false; }
 			break; }
 		case PRED: {
 			if (!kHasEop(k) || sp.a == 0 || w % sp.a || bw % sp.a) return false;
 			sp.wout = w / sp.a; sp.bwout = bw / sp.a;
+			if (sp.a == 1 && (bw || ek)) return false;
+			// Packet.h:683-690: same truncated byte-enable offset in widthReduce
+			if (!allowKnownDefects && bw && sp.a > 1 && (sp.bwout != 1 || (sp.a & (sp.a - 1)))) return false;
 			if (ek == 1 && (w % 8 || sp.wout % 8)) return false;
+			// Packet.h:726/751 `bytesLeft - zext(empty)`: the incoming empty field must not be wider than last(bytesIn) (elaboration error otherwise)
+			if (ek && ew > bitLen(ek == 1 ? w / 8 : w)) return false;
 			if (ek) { uint64_t unit = ek == 1 ? sp.wout / 8 : sp.wout; sp.ewout = bitCount(unit); if (sp.ewout == 0) return false;
 				// the producer's empty must fit the input beat: guaranteed at the head, kept by the stages
 			}
@@ -455,6 +487,11 @@ static bool finishWidths(CaseSpec &cs)
 		}
 		w = sp.wout; bw = sp.bwout; ew = sp.ewout;
 	}
+	// widthExtend derives ready(source)/valid(out) from eop(source) even while the source offers nothing; behind a FIFO that is
+	// the FIFO's peek register, undefined whenever the read slot was never written: the ReferenceSimulator then drives the
+	// handshake undefined. Nothing to compare — no FIFO upstream of a widthExtend.
+	bool fifoSeen = false;
+	for (auto &sp : cs.stages) { if (sp.kind == FIFO) fifoSeen = true; if (sp.kind == PEXT && fifoSeen) return false; }
 	return true;
 }
 
@@ -463,7 +500,7 @@ static CaseSpec genCase1(vh::Rng &rng, uint64_t id, unsigned ncycles, unsigned s
 	for (;;) {
 		CaseSpec cs;
 		cs.id = id;
-		cs.skind = (unsigned)rng.below(10);
+		cs.skind = rng.chance(2, 5) ? 6 + (unsigned)rng.below(4) : (unsigned)rng.below(6); // packet-framed kinds are rejected more often below
 		cs.txw = (unsigned)rng.range(1, 4);
 		cs.ncycles = ncycles;
 		cs.stallmode = stallmode;
@@ -515,7 +552,7 @@ static CaseSpec genCase1(vh::Rng &rng, uint64_t id, unsigned ncycles, unsigned s
 			}
 			cs.stages.push_back(sp);
 		}
-		if (!finishWidths(cs)) continue;
+		if (!finishWidths(cs, (stallmode & 8) != 0)) continue;
 		cs.simSeed = rng.next();
 		return cs;
 	}
@@ -526,6 +563,7 @@ static CaseSpec genCase(vh::Rng &rng, uint64_t id, unsigned ncycles, unsigned mo
 	for (;;) {
 		CaseSpec cs = genCase1(rng, id, ncycles, mode);
 		bool a = blockingFeedsWeak(cs.stages), b = reduceThenDelay(cs.stages);
+		if (blockingFeedsWeakThroughPext(cs.stages)) continue;
 		if (a && !(mode & 2)) continue;
 		// the dedicated streams should actually contain what they are for
 		if ((mode & 2) && !a && rng.chance(3, 4)) continue;
@@ -574,7 +612,7 @@ int main(int argc, char **argv)
 				if (f.size() > 2) sp.b = (unsigned)std::stoul(f[2]);
 				cs.stages.push_back(sp);
 			}
-			if (!finishWidths(cs)) { std::cerr << "c16: this chain cannot be built for stream kind " << cs.skind << "\n"; return 2; }
+			if (!finishWidths(cs, true)) { std::cerr << "c16: this chain cannot be built for stream kind " << cs.skind << "\n"; return 2; }
 		}
 		try {
 			switch (cs.skind) {
